@@ -437,6 +437,82 @@ def job_load_fully(jc):
 
 
 
+# ---------------------------------------------------------------- the same font object reordered more than once (glue steps do this)
+
+TWICE_PERMS = [
+    lambda n: [0] + list(range(n - 1, 0, -1)),
+    lambda n: [0] + [((i * 3) % (n - 1)) + 1 for i in range(n - 1)],
+    lambda n: [0] + [((i * 5 + 2) % (n - 1)) + 1 for i in range(n - 1)],
+    lambda n: list(range(n)),
+]
+
+
+def _reorder_steps(ks):
+    """apply permutations ks[0], ks[1], ... to ONE zoo font object; -> problems found after the last step"""
+    font = ZOO.build_zoo()
+    names = ZOO.NAMES
+    snaps = {tag: snapshot(font[tag].table) for tag in ("GPOS", "GSUB", "GDEF")}
+    order = list(names)
+    for k in ks:
+        perm = TWICE_PERMS[k](len(names))
+        order = [order[i] for i in perm]
+        RG.reorder_glyphs(font, order)
+    pos = {n: i for i, n in enumerate(order)}
+    bad = []
+    for tag in ("GPOS", "GSUB", "GDEF"):
+        for node in all_nodes(font[tag].table):
+            k = (type(node).__name__, getattr(node, "Format", None))
+            for a, c in coverages_of(node):
+                if [pos[g] for g in c.glyphs] != sorted(pos[g] for g in c.glyphs):
+                    bad.append({"table": f"{tag}:{k}", "coverage": a, "glyphs": c.glyphs})
+            for cov_attr, par_attr in SPEC.get(k, []):
+                if par_attr is None:
+                    continue
+                c, par = dotted(node, cov_attr), dotted(node, par_attr)
+                was = snaps[tag][(id(node), cov_attr)]
+                for g, e in zip(c.glyphs, par):
+                    ident = id(e) if not isinstance(e, str) else ("str", e)
+                    if was.get(g) != ident:
+                        bad.append({"table": f"{tag}:{k}", "array": par_attr, "glyph": g, "problem": "paired with another glyph's element"})
+    if font.getGlyphOrder() != order:
+        bad.append({"glyph order not applied": font.getGlyphOrder()})
+    return order, bad
+
+
+def replay_reorder_steps(inp):
+    ks = [int(inp[f"p{i}"]) for i in range(inp["steps"])]
+    try:
+        order, bad = _reorder_steps(ks)
+    except Exception as e:
+        return {"permutations": ks, "raised": repr(e)}
+    return {"permutations applied in turn": ks, "final order": order, "problems": bad[:4]} if bad else None
+
+
+def job_reorder_steps(jc):
+    """reorder_glyphs applied two or three times to one font object (choice of permutations = solver variables, forked):
+    after the last step every coverage is sorted by the FINAL glyph ids and every parallel array still pairs up."""
+    jc.encode(RG.reorder_glyphs, RG._sort_by_gid, RG.ReorderCoverage.apply, RG.ReorderList.apply)
+    steps = jc.params["steps"]
+    inp = {"steps": steps}
+    for i in range(steps):
+        inp[f"p{i}"] = core.SymNum(z3.Int(f"p{i}"))
+
+    def body():
+        return [core.integer(f"p{i}", 0, len(TWICE_PERMS) - 1).concretize() for i in range(steps)]
+
+    for r in jc.explore(body, max_paths=200):
+        ks = r.value
+        jc.reach(r, "ok")
+        try:
+            _, bad = _reorder_steps(ks)
+            err = None
+        except Exception as e:
+            bad, err = [], e
+        jc.prove(r, z3.BoolVal(not bad and err is None), "reordering the same font again sorts by the new glyph ids (no state kept from the previous order)", inp, replay_reorder_steps, key="C11:reorder-steps")
+    jc.expect_reached("ok")
+
+
+
 def jobs(tier):
     font = ZOO.build_zoo()
     js = [Job(f"focus[{name}]", job_focus, index=i) for i, (tag, name, st) in enumerate(focuses(font))]
@@ -444,6 +520,9 @@ def jobs(tier):
     js.append(Job("whole_font[empty lookup first]", job_whole_font, variant="empty lookup first"))
     js.append(Job("static_crosscheck", job_static_crosscheck))
     js.append(Job("load_fully", job_load_fully))
+    js.append(Job("reorder twice", job_reorder_steps, steps=2))
+    if tier != "quick":
+        js.append(Job("reorder three times", job_reorder_steps, steps=3))
     # the regrouping that triggers the reorder (svg._ensure_groups_grouped_in_glyph_order): the new glyph order and
     # the glyph ids written into the documents must be one and the same numbering
     from harness import C02
